@@ -4,7 +4,7 @@ EXTENDS Sync, Json
 Finished == s.th[0].pc = "finished"
 ExportInv == Finished => PrintT(<<"SCASE", ToJson([sched |-> hist.sched, lo |-> hist.lo, hi |-> hist.hi,
                                                      kind |-> Kind, scripts |-> Scripts, main |-> MainScript,
-                                                     wakers |-> SetToSortSeq(DOMAIN WakerBits, <)])>>)
+                                                     wakers |-> SetToSortSeq(DOMAIN WakerBits, <), chanbit |-> ChanBit])>>)
 
 \* --- waker configurations
 WB_same == (1 :> 1) @@ (2 :> 2)                \* two wakers in the same leaf word
@@ -42,4 +42,5 @@ M_pp1 == <<<<"psend", 1>>, <<"poll">>, <<"psend", 2>>, <<"poll">>, <<"pdrop">>>>
 M_pp2 == <<<<"poll">>, <<"pdrop">>, <<"poll">>>>
 M_pp3 == <<<<"psend", 1>>, <<"psend", 2>>, <<"poll">>, <<"pdrop">>>>
 NoWakers == << >>
+WB_far == (1 :> 4097)     \* the channel's / piped thread's Waker sits in the second bitmap
 =============================================================================
